@@ -99,9 +99,14 @@ def _pad_face_connections(
 
     # Detect all the axes we have to deal with during padding
     # all the axes defined in the connections + the axes of the padding width should give all axes we need to iterate over
-    pad_axes = list(
-        set(_get_all_connection_axes(connections, facedim) + list(padding_width.keys()))
+    # (in the order of the axes of the grid: the order in which the axes are padded decides what ends
+    # up in the corners, so it must depend neither on the hash seed nor on the order of the table)
+    needed_axes = set(
+        _get_all_connection_axes(connections, facedim) + list(padding_width.keys())
     )
+    pad_axes = [axname for axname in grid.axes if axname in needed_axes] + [
+        axname for axname in padding_width.keys() if axname not in grid.axes
+    ]
 
     padding_width = {axname: padding_width.get(axname, (0, 0)) for axname in pad_axes}
 
